@@ -419,34 +419,39 @@ def run(ctx: Context, rep) -> None:
     # its parameter on unchanged
     tfd_ = ctx.fn(C.INTERFACES[0])
 
-    def expand_(fn__, e, depth=0):
-        if isinstance(e, ast.Name) and e.id != PARAM_ and depth < 4:
-            defs = [n for n in fn__.body_nodes() if (
-                isinstance(n, ast.Assign) and any(
-                    isinstance(t, ast.Name) and t.id == e.id
-                    for t in n.targets)) or (
-                        isinstance(n, ast.AnnAssign) and n.value is not None
-                        and isinstance(n.target, ast.Name) and
-                        n.target.id == e.id)]
-            if len(defs) == 1:
-                return expand_(fn__, defs[0].value, depth + 1)
-            return e
+    def defs_(fn__, name):
+        return [n.value for n in fn__.body_nodes() if ((
+            isinstance(n, ast.Assign) and any(
+                isinstance(t, ast.Name) and t.id == name
+                for t in n.targets)) or (
+                    isinstance(n, ast.AnnAssign) and isinstance(
+                        n.target, ast.Name) and n.target.id == name))
+                and n.value is not None]
 
-        class _T(ast.NodeTransformer):
-            def visit_Name(self, n):
-                return expand_(fn__, n, depth + 1) if n.id != PARAM_ and \
-                    depth < 4 else n
-        import copy as _copy
-        return _T().visit(_copy.deepcopy(e)) if not isinstance(
-            e, ast.Name) else e
-
-    def bounded_or_none(e):
-        # None lets tf.data choose (number of cores): not data dependent
+    def bounded_or_none(e, fn__=None, depth=0):
+        # None lets tf.data choose (number of cores): not data dependent; a
+        # local is bounded when every one of its definitions is
         if isinstance(e, ast.Constant) and e.value is None:
             return True
+        if isinstance(e, ast.Name) and e.id != PARAM_ and fn__ is not None \
+                and depth < 4 and e.id not in fn__.params():
+            ds = defs_(fn__, e.id)
+            return bool(ds) and all(bounded_or_none(v, fn__, depth + 1)
+                                    for v in ds)
         if isinstance(e, ast.IfExp):
-            return bounded_or_none(e.body) and bounded_or_none(e.orelse)
+            return bounded_or_none(e.body, fn__, depth) and \
+                bounded_or_none(e.orelse, fn__, depth)
+        if isinstance(e, ast.BoolOp):
+            return all(bounded_or_none(v, fn__, depth) for v in e.values)
         return bounded(e)
+
+    def expand_(fn__, e, depth=0):
+        # for the report only: a single-definition local reads as its value
+        if isinstance(e, ast.Name) and e.id != PARAM_:
+            ds = defs_(fn__, e.id)
+            if len(ds) == 1 and depth < 4:
+                return expand_(fn__, ds[0], depth + 1)
+        return e
 
     n_rd = 0
     for c_ in tfd_.calls():
@@ -461,7 +466,7 @@ def run(ctx: Context, rep) -> None:
                 continue
             n_rd += 1
             ex_ = expand_(tfd_, a_)
-            rep.ob("C14.config", bounded_or_none(ex_), loc=tfd_.loc(c_),
+            rep.ob("C14.config", bounded_or_none(a_, tfd_), loc=tfd_.loc(c_),
                    where=tfd_.qualname,
                    construct=f"read_and_decode({kwname}={short(ex_, 60)})",
                    message="the number of TFRecord files read at once is "
